@@ -32,13 +32,14 @@ def serialize_json(
 
     _member = HeaderMember(**member)
     headers = _member.headers()
-    if "b64" not in headers:
+    # "b64" MUST be integrity protected (RFC 7797, section 3)
+    if not _member.protected or "b64" not in _member.protected:
         return _serialize_json(member, payload, private_key, algorithms, registry)
 
     if registry is None:
         registry = JWSRegistry(algorithms=algorithms)
 
-    if headers["b64"] is True:
+    if _member.protected["b64"] is True:
         return _serialize_json(member, payload, private_key, registry=registry)
 
     registry.check_header(headers)
@@ -78,8 +79,8 @@ def deserialize_json(
     if registry is None:
         registry = JWSRegistry(algorithms=algorithms)
 
-    headers = obj.headers()
-    if headers["b64"] is True:
+    assert obj.member.protected is not None
+    if obj.member.protected["b64"] is True:
         return _deserialize_json(value, public_key, registry=registry)
 
     payload_segment = obj.segments["payload"]
@@ -105,8 +106,9 @@ def _extract_json(value: FlattenedJSONSerialization) -> t.Optional[FlattenedJSON
 
     header = value.get("header")
     member = HeaderMember(protected, header)
-    headers = member.headers()
-    if "b64" not in headers:
+    # "b64" MUST be integrity protected (RFC 7797, section 3), an unprotected
+    # "b64" does not switch the payload encoding
+    if not isinstance(protected, dict) or "b64" not in protected:
         return None
 
     payload = to_bytes(value["payload"])
